@@ -314,10 +314,10 @@ func c16(c *Ctx) {
 
 	// V4 who writes the config
 	allowed := map[string]string{
-		"ircserver.NewIRCServer":               "constructor (default configuration)",
-		"main.(*FSM).applyRobustMessage":       "the Config arm (V3)",
-		"ircserver.(*IRCServer).Unmarshal":     "snapshot load",
-		"ircserver.(*IRCServer).cmdGline":      "GLINE adds a ban inside the state machine",
+		"ircserver.NewIRCServer":           "constructor (default configuration)",
+		"main.(*FSM).applyRobustMessage":   "the Config arm (V3)",
+		"ircserver.(*IRCServer).Unmarshal": "snapshot load",
+		"ircserver.(*IRCServer).cmdGline":  "GLINE adds a ban inside the state machine",
 	}
 	for _, fi := range c.P.AllFuncs {
 		if fi.Body() == nil {
